@@ -38,11 +38,28 @@ def gen_tree(rnd):
         elif op == "delay":
             ms.append({"op": op, "of": rnd.choice((0, 1)), "d": rnd.choice((0.1, 0.23))})
         elif op == "integrate":
-            ms.append({"op": op, "of": rnd.choice((0, 1, 2)), "ic": rnd.choice((0.0, 0.5))})
+            ms.append({"op": op, "of": rnd.choice((0, 1, 1, 2)), "ic": rnd.choice((0.0, 0.5))})
         elif op == "diff":
-            ms.append({"op": op, "of": rnd.choice((0, 1))})
+            cands = [i for i in range(n) if ms[i]["op"] in ("sin", "time", "integrate", "plus", "minus", "scale")]
+            ms.append({"op": op, "of": rnd.choice(cands or [0])})
         else:
             ms.append({"op": "sin", "a": 1.5, "w": 3.0, "p": 0.7})
+    # chains that stack caching measures on a derivative of an integral (values whose depends-on
+    # stage is computed through several measures)
+    if rnd.random() < 0.6:
+        src = rnd.choice((1, 1, 0, 2))
+        if rnd.random() < 0.4:
+            ms.append({"op": "scale", "f": 3.0, "of": 1}); src = len(ms) - 1
+        ms.append({"op": "integrate", "of": src, "ic": 0.0})
+        ms.append({"op": "diff", "of": len(ms) - 1})
+        d = len(ms) - 1
+        top = rnd.choice(("scale", "plus", "minus", "max"))
+        if top == "scale":
+            ms.append({"op": "scale", "f": 2.0, "of": d})
+        elif top in ("plus", "minus"):
+            ms.append({"op": top, "l": rnd.choice((2, 3)), "r": d})
+        else:
+            ms.append({"op": "scale", "f": 2.0, "of": d}); ms.append({"op": "max", "of": len(ms) - 1})
     return ms
 
 
@@ -70,6 +87,12 @@ def analytic(ms, i, t):
         a = analytic(ms, m["of"], t)
         return None if a is None else (m["f"] * a[0], m["f"] * a[1], abs(m["f"]) * a[2] + 1e-12)
     if op == "diff":
+        if ms[m["of"]]["op"] == "integrate":
+            # d/dt of an integral is the integrand (defined even where the quadrature itself is not judged)
+            ov = analytic(ms, ms[m["of"]]["of"], t)
+            return None if ov is None else (ov[0], ov[1], 1e-9)
+        if ms[m["of"]]["op"] not in ("sin", "time"):
+            return None      # operand without its own derivative: a finite-difference estimate (numeric accuracy, not judged)
         a = analytic(ms, m["of"], t)
         return None if a is None else (a[1], 0.0, 1e-9)
     if op == "delay":
@@ -88,14 +111,32 @@ def analytic(ms, i, t):
         if not ERRCTL[0]:
             return None      # accuracy of the quadrature is the integrator's (C20), not the measure's
         o = ms[m["of"]]
+        # value: numeric quadrature (judged loosely); time derivative: exactly the operand's value
+        ov = analytic(ms, m["of"], t)
+        if o["op"] == "scale" and ms[o["of"]]["op"] == "time":
+            return m["ic"] + o["f"] * t * t / 2, ov[0], 3e-2
         if o["op"] == "time":
-            return m["ic"] + t * t / 2, t, 3e-2
+            return m["ic"] + t * t / 2, ov[0], 3e-2
         if o["op"] == "const":
-            return m["ic"] + o["v"] * t, o["v"], 3e-2
+            return m["ic"] + o["v"] * t, ov[0], 3e-2
         if o["op"] == "sin":
-            return m["ic"] + o["a"] * (math.cos(o["p"]) - math.cos(o["w"] * t + o["p"])) / o["w"], 0.0, 3e-2
+            return m["ic"] + o["a"] * (math.cos(o["p"]) - math.cos(o["w"] * t + o["p"])) / o["w"], ov[0], 3e-2
         return None
     return None
+
+
+def stage_of(ms, i):
+    """depends-on stage of a measure's value: 1 Topology (constants), 2 Model (Variable), 4 Time"""
+    m = ms[i]
+    if m["op"] == "const":
+        return 1
+    if m["op"] == "var":
+        return 2
+    if m["op"] in ("plus", "minus"):
+        return max(stage_of(ms, m["l"]), stage_of(ms, m["r"]))
+    if m["op"] in ("scale", "max", "min", "maxabs", "minabs"):
+        return stage_of(ms, m["of"])
+    return 4
 
 
 def validate(lines, work, name):
@@ -187,6 +228,10 @@ def main():
         bad = [e for e in evs if e["e"] in ("Timeout", "Error") or e.get("exc")]
         if bad and "step failed" in (bad[0].get("exc") or "") and "Measure" not in (bad[0].get("exc") or ""):
             stepfail += 1        # the integrator gave up on the ODE itself (e.g. a fixed step too large for CPodes)
+            continue
+        if bad and "at least Model" in json.dumps(bad[0]) and any(
+                m["op"] == "diff" and ms[m["of"]]["op"] in ("plus", "minus", "scale") and stage_of(ms, m["of"]) == 2 for m in ms):
+            rep.violation("init-exception/Differentiate-approx-of-Model-stage-operand", {"run": run}, json.dumps(bad[0])[:300])
             continue
         if bad:
             rep.violation("exception/%s/%s" % (run["integ"], "+".join(sorted(set(m["op"] for m in ms)))), {"run": run},
